@@ -83,6 +83,10 @@ fn main() {
             }
             std::process::exit(checks::replay(&args[2]));
         }
+        "crosscheckfind" => {
+            let n = args.get(2).and_then(|x| x.parse().ok()).unwrap_or(1000);
+            e2_oracles::crosscheckfind(n);
+        }
         "checkchainfind" => {
             let n = args.get(2).and_then(|x| x.parse().ok()).unwrap_or(1000);
             let d: i32 = args.get(3).and_then(|x| x.parse().ok()).unwrap_or(8);
